@@ -78,7 +78,7 @@ fn certainly_ill_formed(line: &str) -> Option<&'static str> {
 
 pub fn run(tier: Tier) -> i32 {
     let rep = Report::new("C17", tier, "model_checking");
-    rep.set_rule("SCOPE: (forms) utterances (incl. labels whose first phoneme is named like a number: 2, -1, 1e3, .5, +0; one utterance of 300 lines; sentence ends on a voice whose trees ask about the undefined-phoneme marker) x {&[&str], &[String], Vec<String>, &[&str; N], Vec<Label>} x a blank line inserted at every position x time stamps present/absent/zero-length/all zero/backwards/astronomical with alignment off (utterances incl. one with sil and pau labels), and time-stamped lines with blank lines at every position with alignment on, waveforms compared bit-exactly; (faults) 5 base lines (plain label, label with times, label with fractional times, and two already ill-formed ones: one time stamp deleted, /K: section deleted): every single-character deletion, duplication, and substitution/insertion from a 33-symbol alphabet (incl. line breaks) at every position, every prefix truncation, every token deletion/duplication, 14 special time tokens; thorough: all pairs of substitutions on a 40-character window; oracle: never a panic, Err required for certainly ill-formed lines (two tokens, time rejected by f64::from_str, missing phoneme separator or /A:../K: marker); distinct = distinct corrupted line; non-trivial = line differs from the base");
+    rep.set_rule("SCOPE: (forms) utterances (incl. labels whose first phoneme is named like a number: 2, -1, 1e3, .5, +0; one utterance of 300 lines; inputs of 1023..65537 lines (thorough: 300001) compared as parsed label lists and time stamps, with blank lines and with one malformed line; sentence ends on a voice whose trees ask about the undefined-phoneme marker) x {&[&str], &[String], Vec<String>, &[&str; N], Vec<Label>} x a blank line inserted at every position x time stamps present/absent/zero-length/all zero/backwards/astronomical with alignment off (utterances incl. one with sil and pau labels), and time-stamped lines with blank lines at every position with alignment on, waveforms compared bit-exactly; (faults) 5 base lines (plain label, label with times, label with fractional times, and two already ill-formed ones: one time stamp deleted, /K: section deleted): every single-character deletion, duplication, and substitution/insertion from a 33-symbol alphabet (incl. line breaks) at every position, every prefix truncation, every token deletion/duplication, 14 special time tokens; thorough: all pairs of substitutions on a 40-character window; oracle: never a panic, Err required for certainly ill-formed lines (two tokens, time rejected by f64::from_str, missing phoneme separator or /A:../K: marker); distinct = distinct corrupted line; non-trivial = line differs from the base");
     rep.assume("single faults (pairs on one window in the thorough tier); lines that are not certainly ill-formed may be accepted or rejected");
     let corpus = labels::corpus();
     let tiny = engine_from_bytes(&GenCfg { nstate: 2, ..GenCfg::default() }.bytes()).expect("generated voice");
@@ -195,6 +195,67 @@ pub fn run(tier: Tier) -> i32 {
                 other => rep.violation("forms-differ", format!("Vec<Label> form differs or fails: {:?}", other.map(|r| r.map(|w| w.len()).map_err(|e| e.to_string()))), json!({"engine": ename, "form": "Vec<Label>", "lines": u})),
             }
         }
+    }
+    // ---------- long inputs, at the level of the parsed label list ----------
+    // far more lines than any synthesized case (counts around 2^11, 2^12, 2^13, 2^16): every string form must give the same
+    // labels, in order, and the same time stamps as the already-parsed form; a malformed last line must still be an error
+    {
+        use jbonsai::label::ToLabels;
+        let counts: Vec<usize> = tier.pick(vec![1023, 2047, 2048, 2049, 2100, 4099, 8191, 8200, 20001, 65537], vec![1023, 2047, 2048, 2049, 2100, 4099, 8191, 8200, 16385, 20001, 32771, 65537, 131075, 300001]);
+        let long_cases = AtomicU64::new(0);
+        rep.par_for(counts.len(), 1, "C17 long inputs", |ci| {
+            let n = counts[ci];
+            let cond = tiny.condition.clone();
+            let rate = cond.get_sampling_frequency() as f64 / (cond.get_fperiod() as f64 * 1e7);
+            let plain: Vec<String> = (0..n).map(|i| corpus[(i * 7 + i / corpus.len()) % corpus.len()].clone()).collect();
+            let parsed: Vec<jlabel::Label> = plain.iter().map(|l| labels::parse(l)).collect();
+            let timed: Vec<String> = plain.iter().enumerate().map(|(i, l)| format!("{} {} {}", i * 50_000, (i + 1) * 50_000, l)).collect();
+            let want_times: Vec<(f64, f64)> = (0..n).map(|i| ((i * 50_000) as f64 * rate, ((i + 1) * 50_000) as f64 * rate)).collect();
+            let mut blanks = timed.clone();
+            for pos in [n, n - 1, n / 2, n / 8 + 1, 1, 0] {
+                blanks.insert(pos, String::new());
+            }
+            for (vname, lines, times) in [("plain", &plain, false), ("time stamps", &timed, true), ("time stamps + blank lines", &blanks, true)] {
+                let strs: Vec<&str> = lines.iter().map(|x| x.as_str()).collect();
+                let forms: Vec<(&str, Result<Result<jbonsai::label::Labels, jbonsai::label::LabelError>, String>)> = vec![
+                    ("&[&str]", catch(|| (&strs[..]).to_labels(&cond))),
+                    ("&[String]", catch(|| (&lines[..]).to_labels(&cond))),
+                    ("Vec<String>", catch(|| lines.clone().to_labels(&cond))),
+                ];
+                for (fname, r) in forms {
+                    rep.eval(1);
+                    rep.cmp(1);
+                    long_cases.fetch_add(1, Ordering::Relaxed);
+                    let rp = json!({"long_input": {"lines": n, "variant": vname, "form": fname, "line_i": "corpus[(7 i + i / len) mod len], time stamps 50000 i .. 50000 (i+1)"}});
+                    match r {
+                        Err(p) => rep.violation("forms-panic", format!("{} lines ({}) as {}: panic {}", n, vname, fname, p), rp),
+                        Ok(Err(er)) => rep.violation("forms-error", format!("{} well-formed lines ({}) as {} rejected: {}", n, vname, fname, er), rp),
+                        Ok(Ok(l)) => {
+                            if l.labels().len() != n || l.labels() != &parsed[..] {
+                                let first = l.labels().iter().zip(&parsed).position(|(a, b)| a != b).unwrap_or(l.labels().len().min(n));
+                                rep.violation("forms-differ-long", format!("{} lines ({}) as {} give {} labels; first difference from the parsed form at index {}", n, vname, fname, l.labels().len(), first), rp);
+                            } else if times && !(l.times().len() == n && l.times().iter().zip(&want_times).all(|(a, b)| (a.0 - b.0).abs() <= 1e-9 * b.0.max(1.0) && (a.1 - b.1).abs() <= 1e-9 * b.1.max(1.0))) {
+                                rep.violation("forms-times-long", format!("{} lines ({}) as {}: time stamps are not start/end x rate / (fperiod x 1e7), line by line", n, vname, fname), rp);
+                            }
+                        }
+                    }
+                }
+            }
+            // one malformed line (its label cut after /K:) at the end, in the middle, at the start
+            for pos in [n - 1, n / 2 + 1, n - n / 9, 0] {
+                let mut bad = timed.clone();
+                bad[pos] = bad[pos].split("/K:").next().unwrap().to_string();
+                rep.eval(1);
+                rep.cmp(1);
+                let rp = json!({"long_input": {"lines": n, "malformed_line_at": pos}});
+                match catch(|| (&bad[..]).to_labels(&cond)) {
+                    Err(p) => rep.violation("forms-panic", format!("{} lines with a malformed line at {}: panic {}", n, pos, p), rp),
+                    Ok(Ok(_)) => rep.violation("fault-accepted-long", format!("{} lines with a malformed line (label cut before /K:) at index {} are accepted", n, pos), rp),
+                    Ok(Err(_)) => {}
+                }
+            }
+        });
+        rep.note("long_inputs", json!({"line_counts": counts, "cases": long_cases.load(Ordering::Relaxed)}));
     }
     // ---------- faults ----------
     let alphabet: Vec<String> = vec![" ", "\t", "\0", "/", ":", "+", "-", "=", "^", "_", "!", "#", "@", "|", "&", "%", "0", "9", "x", "a", "A", "Z", ".", "e", "E", "*", "?", "\"", "\u{3042}", "\u{7f}", "\n", "\r\n", "\r"].into_iter().map(String::from).collect();
